@@ -166,8 +166,14 @@ def shipped_stream_text(rng, entries, isa, nmin=8, nmax=16):
     from osaca.parser import get_parser
 
     parser = get_parser(isa)
+    nalt = 0
     for k in range(n):
         f = rng.choice(pool)
+        if isinstance(f.port_pressure, dict):
+            # the optimiser explores alternative assignments depth-first (k^n re-optimisations): keep n small
+            if nalt >= 3:
+                continue
+            nalt += 1
         ln = synth.render(isa, f, nbase=rng.randint(0, 5))
         if ln:
             try:
